@@ -57,6 +57,38 @@ class Gen:
             return cfgs[order[index % len(cfgs)]]
         return self.rng.choice(cfgs)
 
+    def vd_extras(self, joliet=False, xa=False):
+        """Keyword arguments for the volume-descriptor fields of PyCdlib.new(): identifiers at and
+        below their field widths, set size / sequence number, expiry date, application use."""
+        r = self.rng
+        A = 'ABCDEFGHIJKLMNOPQRSTUVWXYZ0123456789_ !%&()*+,-./:;<=>?'
+        D = 'ABCDEFGHIJKLMNOPQRSTUVWXYZ0123456789_'
+        def text(alpha, width):
+            n = r.choice([0, 1, width // 2, width - 1, width])
+            return ''.join(r.choice(alpha) for _ in range(n)).strip() if n else ''
+        ex = {}
+        for name, alpha, width in (('sys_ident', A, 32), ('vol_ident', D, 32), ('vol_set_ident', D, 128), ('pub_ident_str', A, 128),
+                                   ('preparer_ident_str', A, 128), ('app_ident_str', A, 128), ('copyright_file', D, 37),
+                                   ('abstract_file', D, 37), ('bibli_file', D, 37)):
+            if joliet:
+                width //= 2      # the Joliet descriptor stores the same strings in UCS-2
+            if r.random() < 0.5:
+                v = text(alpha, width)
+                if name.endswith('_file') and v:
+                    v = (v[:width - 4] + ';1' if r.random() < 0.5 else v)[:width]
+                if v:
+                    ex[name] = v
+        if r.random() < 0.5:
+            ss = r.choice([1, 2, 3, 255, 256, 65535])
+            ex['set_size'] = ss
+            ex['seqnum'] = r.choice([1, ss, max(1, ss - 1)])
+        if r.random() < 0.4:
+            ex['vol_expire_date'] = float(r.choice([0, 1, 86400 * 365, 1600000000, 2000000000, 4102444800]))
+        if r.random() < 0.4:
+            n = r.choice([1, 100, 139, 140]) if xa else r.choice([1, 100, 140, 141, 149, 150, 511, 512])
+            ex['app_use'] = ''.join(r.choice(A) for _ in range(n))
+        return ex
+
     # ---- names --------------------------------------------------------------
     def _u(self):
         self.uniq += 1
